@@ -322,3 +322,69 @@ func TestVerif_C20_NAFExhaustive(t *testing.T) {
 		}
 	}
 }
+
+// A SMALL integer needs few digits: for a value below 2^k the recoding has no digit at or above position k+1, and a zeroed buffer of
+// k+2 digits is all the routine ever writes to (it stores non-zero digits only). Callers that recode short scalars into short
+// buffers — the front of a larger scratch arena, or an exactly sized slice — rely on that: nothing behind the buffer is touched,
+// and there is no panic.
+func TestVerif_C20_NAFShortBuffer(t *testing.T) {
+	rec := stats.Get("C20", "naf-short-buffer")
+	rec.Rule("rapid: k in {8,16,64,100,128,190,254}, a 32-byte s below 2^k (uniform, all ones, one bit, densest recoding), w in 1..7, out = the first k+2 entries of an arena whose remaining entries hold a canary (capacity reaching over the arena, or cut at k+2). Oracle: no panic; digits valid and spaced; sum = s; every arena entry behind the buffer still holds the canary. Non-trivial: every case; distinct by (s, w, k, capacity).")
+	t.Cleanup(stats.FlushAll)
+	rapid.Check(t, func(t *rapid.T) {
+		k := []int{8, 16, 64, 100, 128, 190, 254}[gen.Uniform(t, "k", 0, 6)]
+		w := gen.Int(t, "w", 1, 7)
+		r := gen.Rand(t, "seed")
+		v := new(big.Int).SetBytes(gen.RandBytes(r, 32))
+		switch gen.Pick(t, "shape", "uniform", "ones", "onebit", "dense") {
+		case "ones":
+			v.Lsh(big.NewInt(1), uint(k)).Sub(v, big.NewInt(1))
+		case "onebit":
+			v.Lsh(big.NewInt(1), uint(gen.Uniform(t, "bit", 0, k-1)))
+		case "dense":
+			d, _ := gen.Bytes32(t, "dense")
+			v.SetBytes(d)
+		}
+		v.Mod(v, new(big.Int).Lsh(big.NewInt(1), uint(k)))
+		s := gen.Pad32(v)
+		const canary = 0x7777
+		arena := make([]int, 300)
+		for i := k + 2; i < len(arena); i++ {
+			arena[i] = canary
+		}
+		out := arena[: k+2 : len(arena)]
+		capcls := "arena"
+		if gen.Bool(t, "cut") {
+			out = arena[: k+2 : k+2]
+			capcls = "exact"
+		}
+		rec.Case(stats.Hash(s, []byte{byte(w), byte(k)}, []byte(capcls)), true, "cap:"+capcls, fmt.Sprintf("k=%d", k))
+		if p := vt.Catch(func() { DecomposeNAF(out, s, 257, w) }); p != nil {
+			vt.Fail(t, rec, "C20:naf-short:panic", "DecomposeNAF panicked on a value below 2^%d with a zeroed buffer of %d digits (capacity %s): %v\ns=%x w=%d", k, k+2, capcls, p, s, w)
+			return
+		}
+		for i := k + 2; i < len(arena); i++ {
+			if arena[i] != canary {
+				vt.Fail(t, rec, "C20:naf-short:write-behind-buffer", "recoding a value below 2^%d into %d digits wrote %d at arena index %d, behind the buffer\ns=%x w=%d", k, k+2, arena[i], i, s, w)
+				return
+			}
+		}
+		sum := new(big.Int)
+		lim := 1 << uint(w)
+		for i := k + 1; i >= 0; i-- {
+			sum.Lsh(sum, 1)
+			d := out[i]
+			if d == 0 {
+				continue
+			}
+			if d&1 == 0 || d >= lim || d <= -lim {
+				vt.Fail(t, rec, "C20:naf:digit-range", "digit out[%d]=%d not odd with |d|<2^%d\ns=%x", i, d, w, s)
+				return
+			}
+			sum.Add(sum, big.NewInt(int64(d)))
+		}
+		if sum.Cmp(v) != 0 {
+			vt.Fail(t, rec, "C20:naf:sum", "sum of digits = %x, input = %x, w=%d (short buffer)", sum, v, w)
+		}
+	})
+}
